@@ -401,17 +401,25 @@ def interp_expected(ctx, cases, step_cap=20000):
 
 def pipeline(ctx, cases, deadline_ms=1500):
     """bytecode -> DEX -> DAD -> javac (elimination rounds) -> one JVM; interpreter expectations. Mutates the cases."""
+    import time
     if not J.available():
         ctx.inconclusive("javac/java not found")
         return
+    t0 = time.time()
     interp_expected(ctx, cases)
+    t1 = time.time()
     frames = decompile_cases(ctx, cases)
+    t2 = time.time()
     jr = J.JavaRun()
     try:
         compiled = javac_rounds(ctx, jr, cases, frames)
+        t3 = time.time()
         run_jvm(ctx, jr, cases, compiled, deadline_ms)
+        t4 = time.time()
     finally:
         jr.close()
+    for k, v in (("interp", t1 - t0), ("decompile", t2 - t1), ("javac", t3 - t2), ("jvm", t4 - t3)):
+        ctx.counters["wall_s_" + k] = round(ctx.counters.get("wall_s_" + k, 0) + v, 1)
 
 
 def witness_of(c, extra=None):
